@@ -326,7 +326,7 @@ def pollSub (c : Cache.State) (s : Subscriber) : Subscriber :=
 
 /-- `eof` on one subscriber -/
 def eofSub (s : Subscriber) : Subscriber :=
-  if s.alive ∧ s.req.mode = .poll then { s with alive := false, status := some .ok } else s
+  if s.alive ∧ s.req.mode = .poll then { s with alive := false, status := some .ok, blocked := none } else s
 
 theorem poll_eq (st : Sub.State) (id : String) : poll st id = updateSub st id (pollSub st.cache) := rfl
 
@@ -399,7 +399,7 @@ theorem pollSub_pinv (c : Cache.State) (hg : Good c) (s : Subscriber) (hp : PInv
 theorem eofSub_pinv (s : Subscriber) (hp : PInv s) : PInv (eofSub s) := by
   unfold eofSub
   split
-  · exact ⟨hp.regs, ⟨hp.idle.queue, hp.idle.blocked, hp.idle.gate, hp.idle.closed⟩⟩
+  · exact ⟨hp.regs, ⟨hp.idle.queue, rfl, hp.idle.gate, hp.idle.closed⟩⟩
   · exact hp
 
 theorem feedSub_pinv (c' : Cache.State) (evs : List Event) (s : Subscriber) (hp : PInv s) :
